@@ -285,8 +285,17 @@ def classify(e: BaseException):
 
 
 def default_budget(spec) -> int:
-    """Two orders of magnitude above the largest terminating run observed on a problem of that size."""
-    return min(ENGINE_JUMP_BUDGET, 200_000 + 3000 * U.n_assignments(spec))
+    """Calibrated on the unchanged tree: the largest terminating run of the quick universe (every configuration, enumerate /
+    minimise / maximise) uses 0.42 * (20000 + 400 * n) loop iterations, n = number of assignments; the budget is 25 times that
+    shape (60 times the observed maximum for small problems), capped at ENGINE_JUMP_BUDGET."""
+    return min(ENGINE_JUMP_BUDGET, 300_000 + 6_000 * U.n_assignments(spec))
+
+
+# A tree on which runs do not terminate would make a check take hours (every exhausted budget costs about a second):
+# after BUDGET_HIT_LIMIT exhausted budgets in one worker process the remaining runs of that process are skipped; the skipped
+# runs are counted and reported as a cap (exhaustive: false). Never happens on a tree where the properties hold.
+BUDGET_HIT_LIMIT = 4
+_budget_hits = [0]
 
 
 def run(spec, cfg, mode="enumerate", var=None, limit=None, jump_budget=None, stack=None,
@@ -294,8 +303,12 @@ def run(spec, cfg, mode="enumerate", var=None, limit=None, jump_budget=None, sta
     """mode: 'enumerate' (solve() to exhaustion or `limit` solutions), 'min', 'max' (on variable `var`)."""
     ensure_watch()
     out = Outcome()
+    out.jumps = 0
     if jump_budget is None:
         jump_budget = default_budget(spec)
+    if _budget_hits[0] >= BUDGET_HIT_LIMIT and jump_budget < (1 << 59):
+        out.abort, out.abort_detail = "skipped", "skipped after repeated exhausted step budgets in this worker process"
+        return out
     try:
         budget.start(jump_budget)
         out.problem = build(spec)
@@ -323,6 +336,8 @@ def run(spec, cfg, mode="enumerate", var=None, limit=None, jump_budget=None, sta
     finally:
         out.jumps = budget.used()
         budget.stop()
+    if out.abort == "budget":
+        _budget_hits[0] += 1
     return out
 
 
